@@ -25,6 +25,7 @@ class _Unit:
     """Common plumbing: scratch tree, MIR dumps, native crate(s)."""
 
     def __init__(self, ctx, name):
+        smt.set_parallelism(_jobs())
         self.ctx = ctx
         self.dir = os.path.join(ctx.scratch, "smt-" + name)
         os.makedirs(self.dir, exist_ok=True)
@@ -84,7 +85,8 @@ def _validate_all(ctx, u, encs, vectors, problems):
             n, cnt - len(mism), len(vectors[n]), secs, "" if ok else " MISMATCH: " + "; ".join(mism[:3])))
         return n, (ok, cnt, mism)
 
-    with concurrent.futures.ThreadPoolExecutor(max_workers=_jobs()) as pool:
+    # solver processes are bounded globally (smt.set_parallelism); the pool only needs to be wide enough
+    with concurrent.futures.ThreadPoolExecutor(max_workers=max(1, len(todo))) as pool:
         for n, v in pool.map(one, todo):
             validations[n] = v
     return validations
@@ -170,3 +172,41 @@ def unit_batcher_arith(ctx):
         _fail_all(ctx, [n for n in C08_NAMES if not any(o["obligation"] == n for o in ctx.smt)],
                   "E2 batcher unit internal error: %s\n%s" % (e, traceback.format_exc()[-1200:]))
     _log(ctx, "batcher unit done in %.0fs" % (time.time() - t0))
+
+
+# ---------------------------------------------------------------- C11 K4: emit_file::rolling_millis
+
+C11_NAMES = ["O7_rolling_millis_%s%s" % (r, s) for r in ("day", "hour", "minute") for s in ("", "_monotone")]
+
+
+def unit_file_arith(ctx):
+    from mir2smt import file_ob as fo
+    t0 = time.time()
+    try:
+        u = _Unit(ctx, "file")
+        nat = u.native("file", [("emitter/file", [], True)], append=[(fo.FILE, fo.WRAPPER)])
+        with concurrent.futures.ThreadPoolExecutor(max_workers=3) as pool:
+            f_core = pool.submit(u.mir, "core", False, "t-mir-core")
+            f_file = pool.submit(u.mir, "emitter/file", True, "t-mir-file")
+            f_nat = pool.submit(nat.run, fo.native_main())
+            mir_core, mir_file = f_core.result(), f_file.result()
+            rc, out, err = f_nat.result()
+        if rc != 0:
+            raise engine.EngineError("native validation program for emit_file (+ appended wrapper module) failed (rc=%s): %s" % (rc, err[-600:]))
+        P = Program(u.tree)
+        P.add_dump(mir_core, "emit_core")
+        P.add_dump(mir_file, "emit_file")
+        encs = fo.build_encodings(P)
+        for n, e in encs.items():
+            _log(ctx, "encoding %-13s %s" % (n, e.error or "%d SMT lines, %d division lemmas, %d panic obligations, %s" % (
+                len(e.S.lines), e.S.n_divlemmas, len(e.ex.panics), e.S.logic())))
+        obs = fo.obligations(encs)
+        vectors, problems = fo.validation_vectors(out)
+        validations = _validate_all(ctx, u, encs, vectors, problems)
+        driver.decide_all(ctx, obs, validations, u.dir, lambda ob: nat)
+    except (engine.EngineError, Unsupported, Inconclusive) as e:
+        _fail_all(ctx, [n for n in C11_NAMES if not any(o["obligation"] == n for o in ctx.smt)], "E2 file unit: %s" % e)
+    except Exception as e:
+        _fail_all(ctx, [n for n in C11_NAMES if not any(o["obligation"] == n for o in ctx.smt)],
+                  "E2 file unit internal error: %s\n%s" % (e, traceback.format_exc()[-1200:]))
+    _log(ctx, "file unit done in %.0fs" % (time.time() - t0))
